@@ -282,8 +282,15 @@ F_C10_step(cfg, pre, post) ==
                  => CuOf(post, s.i).se = post.now + s.y /\ CuOf(post, s.i).st = s.y)
        \cup Chk("C10.fresh-start-draws", \A a \in IdxOf(post, "start") :
               LET s == post.steps[a]
-                  fresh == ~IsLive(pre, s.i) \/ CuOf(pre, s.i).loc # s.n \/ CuOf(pre, s.i).stm \in {0, 3}
-                           \/ CuOf(pre, s.i).arr # (IF IsLive(post, s.i) THEN CuOf(post, s.i).arr ELSE NONE)
+                  \* a start is the continuation of an interrupted service only if the customer's last record is an
+                  \* interruption at this node during this very visit (and the option is not `resample`);
+                  \* every other start is fresh and must draw a service time
+                  resumption == IsLive(pre, s.i) /\ CuOf(pre, s.i).loc = s.n
+                                /\ CuOf(pre, s.i).ltype = "interrupted service" /\ CuOf(pre, s.i).lnode = s.n
+                                /\ CuOf(pre, s.i).ldest = NONE /\ CuOf(pre, s.i).larr = CuOf(pre, s.i).arr
+                                /\ CuOf(pre, s.i).stm \in {1, 2}
+                  interruptedNow == \E b \in 1..(a-1) : post.steps[b].k \in {"interrupt", "preempt"} /\ post.steps[b].i = s.i
+                  fresh == ~resumption /\ ~interruptedNow
               IN fresh /\ s.n \in DOMAIN cfg.nodes /\ cfg.nodes[s.n].kind = "std" =>
                    \E b \in {a - 1, a + 1} \cap DOMAIN post.steps :
                        post.steps[b].k = "svc" /\ post.steps[b].i = s.i)
